@@ -22,6 +22,8 @@ def gen_rhs(rng, names, depth, rec_ok=True):
         return ('A', [gen_rhs(rng, names, depth - 1, rec_ok) for _ in range(rng.choice([1, 2, 2, 3]))])
     if m < 0.8:
         a, b = sorted([rng.choice("acm05"), rng.choice("acm05z")])
+        if rng.random() < 0.3:
+            b = chr(ord(a) + rng.choice([1, 1, 2]))        # two or three adjacent code points ([0-1], [a-b], [a-c])
         return ('R', ord(a), ord(b))
     start = rng.choice([0, 0, 1, 2])
     stop = rng.choice([None, start, start + 1, start + 2])
@@ -168,6 +170,28 @@ def observe(g, start):
             samples.append(graphs.err_str(ex))
     out.append("samples=" + ";".join(samples))
     return "|".join(out), list(zip(entries, strs))
+
+
+def second_run_differs(g, start):
+    """enumerate the paths of one graph object twice: labels, paths and strings of the second run must be those of the first"""
+    from fences import parse_grammar
+    try:
+        root = parse_grammar(to_fences(g), "n%d" % start)
+    except Exception:  # noqa
+        return None
+    runs = []
+    for _ in range(2):
+        try:
+            ent = [(list(e.path), bool(e.is_valid)) for e in root.generate_paths()]
+            runs.append([(p, v, root.execute(p)) for p, v in ent])
+        except Exception as ex:  # noqa
+            runs.append("raises " + graphs.err_str(ex))
+    if runs[0] != runs[1] and not isinstance(runs[0], str):
+        if isinstance(runs[1], str):
+            return "the second generate_paths() on the same graph %s (the first gave %d samples)" % (runs[1], len(runs[0]))
+        bad = [(a, b) for a, b in zip(runs[0], runs[1]) if a != b][:1]
+        return "the second generate_paths() on the same graph gives %d samples (first run: %d); first difference: %r" % (len(runs[1]), len(runs[0]), bad)
+    return None
 
 
 def derivable(g, start, s):
